@@ -129,4 +129,5 @@ def harness_config(inst):
         "fine_reg": bool(inst.get("fine_reg")),
         "slow_reduce_us": int(inst.get("slow_reduce_us", 0)),
         "slow_deliver_us": int(inst.get("slow_deliver_us", 0)),
+        "slow_clone_us": int(inst.get("slow_clone_us", 0)),
     }
